@@ -105,6 +105,13 @@ class SimLoop(asyncio.SelectorEventLoop):
     def time(self):
         return self._vtime
 
+    def block(self, seconds):
+        """A callback that does not return for `seconds` (a synchronous call in some
+        application task): the clock moves on, nothing else runs meanwhile; timers that fall
+        due in between fire when it ends, in the order they were due."""
+        self.log.add("LOOP.blocked", seconds=seconds)
+        self._vtime += seconds
+
     def _advance(self, timeout):
         if timeout is None:
             raise Quiescent("no ready handles and no timers")
